@@ -1056,6 +1056,12 @@ impl Network {
         self.send_local_swarm_cmd(LocalSwarmCmd::TriggerIrrelevantRecordCleanup)
     }
 
+    /// Verification hook: run `f` on the running driver, inside its own event loop.
+    #[cfg(feature = "verif-hooks")]
+    pub fn verif_with_driver(&self, f: Box<dyn FnOnce(&mut SwarmDriver) + Send>) {
+        self.send_local_swarm_cmd(LocalSwarmCmd::VerifWithDriver(f))
+    }
+
     pub fn add_network_density_sample(&self, distance: KBucketDistance) {
         self.send_local_swarm_cmd(LocalSwarmCmd::AddNetworkDensitySample { distance })
     }
